@@ -14,6 +14,10 @@
  *   simple <id> <ch> <ratio-hex> <in> <out> <io-null>
  *   setratio <ratio-hex> <p-null> | reset <p-null> | error <p-null> | delete <p-null>
  *   strerror <code> | name <id> | valid <ratio-hex>
+ *   readall <ratio-hex> <olen> <N> <B>   the documented pull idiom: src_callback_read(olen) until it returns 0 (or < 0), the
+ *                                        callback handing over N frames in blocks of B and then 0; engine events not logged
+ *   pushall <ratio-hex> <N> <ib> <ob>    the documented push idiom: src_process with blocks of ib frames (end_of_input on the
+ *                                        last), room for ob, until everything is used and a call generates nothing
  *   end
  * stdout, per op k of the sequence:  `B k`, then `E <event>` lines, then `R <result>` and (live handle) `S <state>`;
  *   after the child has gone:        `X <label> exit <code>` or `X <label> sig <n>`.
@@ -29,9 +33,11 @@
 
 #define SENT (-0x5a5a5a5a5a5a5a5bL)
 
+static int quiet;      /* suppress event lines (the idiom ops make thousands of calls) */
 static void out(char const * fmt, ...)
 {
   char buf[512]; va_list a; int n;
+  if (quiet && fmt[0] == 'E') return;
   va_start(a, fmt); n = vsnprintf(buf, sizeof buf - 1, fmt, a); va_end(a);
   if (n < 0) return;
   if (n > (int)sizeof buf - 2) n = sizeof buf - 2;
@@ -78,10 +84,18 @@ static void patch(soxr_t p)
 /* ---- callback with a scripted supply */
 #define CB_CAP 70000
 static float * cb_buf; static char cb_script[4096]; static char * cb_pos; static unsigned cb_ch = 1;
+static int cb_auto; static long cb_left, cb_blk;
 static long cb(void * st, float * * data)
 {
   long n = 0; int null = 0;
   (void)st;
+  if (cb_auto) {
+    n = cb_left < cb_blk? cb_left : cb_blk;
+    if ((size_t)n * cb_ch > CB_CAP) n = CB_CAP / cb_ch;
+    cb_left -= n;
+    *data = cb_buf;
+    return n;
+  }
   while (cb_pos && *cb_pos == ',') ++cb_pos;
   if (cb_pos && *cb_pos && *cb_pos != '-') {
     if (*cb_pos == 'N') null = 1, ++cb_pos;
@@ -155,6 +169,41 @@ static void run_sequence(void)
       out("R ret=%ld", ret);
       state(cur);
       free(ob);
+    }
+    else if (!strcmp(op, "readall")) {
+      unsigned long long rb; long on, N, B, ret = 0, total = 0, reads = 0; float * ob;
+      sscanf(a, "%llx %ld %ld %ld", &rb, &on, &N, &B);
+      ob = malloc(sizeof(float) * ((size_t)on * ch + 1));
+      cb_auto = 1; cb_left = N; cb_blk = B; quiet = 1;
+      while (reads < 2000000 && (ret = src_callback_read(cur, bitsd(rb), on, ob)) > 0) {
+        if (ret > on) {total = -1; break;}
+        total += ret, ++reads;
+      }
+      cb_auto = 0; quiet = 0;
+      out("R total=%ld reads=%ld last=%ld left=%ld", total, reads, ret, cb_left);
+      state(cur);
+      free(ob);
+    }
+    else if (!strcmp(op, "pushall")) {
+      unsigned long long rb; long N, ib, on, pos = 0, total = 0, calls = 0; int rc = 0, bad = 0; float * in, * ob; SRC_DATA d;
+      sscanf(a, "%llx %ld %ld %ld", &rb, &N, &ib, &on);
+      in = signal_buf((size_t)N * ch); ob = malloc(sizeof(float) * ((size_t)on * ch + 1));
+      memset(&d, 0, sizeof d); quiet = 1;
+      while (calls < 2000000) {
+        long left = N - pos;
+        d.data_in = in + pos * ch; d.input_frames = left < ib? left : ib; d.end_of_input = left <= ib;
+        d.data_out = ob; d.output_frames = on; d.src_ratio = bitsd(rb); d.input_frames_used = SENT; d.output_frames_gen = SENT;
+        rc = src_process(cur, &d); ++calls;
+        if (rc) break;
+        if (d.input_frames_used < 0 || d.input_frames_used > d.input_frames || d.output_frames_gen < 0 || d.output_frames_gen > on) {bad = 1; break;}
+        pos += d.input_frames_used; total += d.output_frames_gen;
+        if (pos == N && d.end_of_input && !d.output_frames_gen) break;
+        if (!d.input_frames_used && !d.output_frames_gen && !d.end_of_input) {bad = 2; break;}   /* no progress */
+      }
+      quiet = 0;
+      out("R total=%ld calls=%ld rc=%d bad=%d used=%ld", total, calls, rc, bad, pos);
+      state(cur);
+      free(in); free(ob);
     }
     else if (!strcmp(op, "simple")) {
       unsigned long long rb; long in, on; int id, c, ion, rc; SRC_DATA d; float * ib, * ob;
